@@ -1,6 +1,7 @@
 package checks
 
 import (
+	"github.com/DrmagicE/gmqtt/server"
 	"fmt"
 	"math/rand/v2"
 
@@ -12,6 +13,22 @@ import (
 
 func init() {
 	register(&Check{ID: "C03", Gen: genC03, Oracle: oracleC03,
+		Setup: func(p *sim.Plan) *sim.Setup {
+			var start int
+			fmt.Sscan(p.Params["pidstart"], &start)
+			if start == 0 {
+				return nil
+			}
+			return &sim.Setup{OnConnected: func(w *sim.World, node int, client server.Client) {
+				if client.ClientOptions().ClientID != "sub" {
+					return
+				}
+				if k, ok := client.(interface{ VerifSetNextPacketID(id uint16) }); ok {
+					k.VerifSetNextPacketID(uint16(start))
+					w.Fault("knob.packet_id_near_wrap")
+				}
+			}}
+		},
 		Nontrivial: func(p *sim.Plan, out *sim.Outcome) bool {
 			n := 0
 			for _, r := range out.H.Recs {
@@ -30,6 +47,10 @@ func genC03(rng *rand.Rand, tier string) *sim.Plan {
 	p.Broker.MaxQueued = pick(rng, []int{1000, 200})
 	sv := pick(rng, []byte{4, 5, 5})
 	p.Clients = []sim.ClientSpec{{ID: "sub", Ver: sv}, {ID: "pub", Ver: 4}}
+	if chance(rng, 0.35) {
+		// knob: the subscriber's packet identifier cursor starts just below the wrap-around
+		p.Params = map[string]string{"pidstart": fmt.Sprint(pick(rng, []int{65535, 65534, 65533, 65530}))}
+	}
 	var rm *uint16
 	if sv == 5 && chance(rng, 0.7) {
 		rm = sim.U16(pick(rng, []uint16{1, 2, 3, 10, 65535}))
@@ -76,7 +97,9 @@ func genC03(rng *rand.Rand, tier string) *sim.Plan {
 				ph.Ops = append(ph.Ops, sim.Op{K: "release_acks", C: 0, Mode: pick(rng, []string{"", "reverse"}), Ack: pick(rng, modes), Delay: sim.Us(rng.IntN(1500))})
 			}
 		} else {
-			ph.Ops = append(ph.Ops, connect(chance(rng, 0.1)))
+			cop := connect(chance(rng, 0.1))
+			cop.CarryAcks = chance(rng, 0.4)
+			ph.Ops = append(ph.Ops, cop)
 			online = true
 		}
 		p.Phases = append(p.Phases, ph)
@@ -101,6 +124,9 @@ type c03msg struct {
 	ackSent     bool   // final ack (PUBACK / PUBCOMP) sent but not yet confirmed by a quiescent point
 	ackStep     int
 	recSentStep int
+	rxConn      int  // connection on which the client last received it
+	recConn     int  // connection on which the client last sent PUBREC for it (-1 never)
+	carried     bool // its PUBACK was pipelined behind the CONNECT of a new connection: the broker may process it before or after its retransmission
 }
 
 func oracleC03(p *sim.Plan, out *sim.Outcome) []sim.Violation {
@@ -157,6 +183,23 @@ func oracleC03(p *sim.Plan, out *sim.Outcome) []sim.Violation {
 			connOps[o.Conn] = o
 		}
 	}
+	// A connection on which the client pipelined acknowledgements of the previous connection behind CONNECT:
+	// the broker may free and re-use those identifiers before or after its own retransmissions and attributes
+	// the client's later acknowledgements of the duplicate copies to whatever holds the identifier then, so
+	// identifier, window and order accounting is ambiguous there; what stays decidable is that every other
+	// un-acknowledged message is retransmitted and nothing completed is delivered again.
+	carryConn := -1 // first connection opened with pipelined acknowledgements; nothing is decidable after it
+	for c, o := range connOps {
+		if o.Op.CarryAcks && (carryConn < 0 || c < carryConn) {
+			carryConn = c
+		}
+	}
+	taintedFrom := -1
+	if carryConn >= 0 {
+		taintedFrom = carryConn + 1
+	}
+	relaxed := func(conn int) bool { return carryConn >= 0 && conn >= carryConn }
+	tainted := func(conn int) bool { return taintedFrom >= 0 && conn >= taintedFrom }
 	checkPrefixDone := func(why string) {
 		if !inPrefix {
 			return
@@ -164,6 +207,9 @@ func oracleC03(p *sim.Plan, out *sim.Outcome) []sim.Violation {
 		inPrefix = false
 		for _, m := range expect {
 			if m.ackSent { // optional
+				continue
+			}
+			if tainted(prefixConn) {
 				continue
 			}
 			vs = append(vs, viol("C03", "redeliver", "not-redelivered", "after resuming on connection %d, un-acknowledged message %q (pid %d, state %s) was not retransmitted before %s", prefixConn, m.payload, m.pid, m.state, why))
@@ -179,6 +225,12 @@ func oracleC03(p *sim.Plan, out *sim.Outcome) []sim.Violation {
 						completed[m.payload] = true
 					}
 					pendingConfirm = nil
+					for _, m := range append([]*c03msg{}, unacked...) {
+						if m.carried {
+							completed[m.payload] = true
+							remove(m)
+						}
+					}
 					checkPrefixDone("the system became quiescent")
 				}
 			}
@@ -233,7 +285,7 @@ func oracleC03(p *sim.Plan, out *sim.Outcome) []sim.Violation {
 				if pk.PID == 0 {
 					vs = append(vs, viol("C03", "ids", "zero-id", "QoS %d PUBLISH %q with packet identifier 0", pk.QoS, pl))
 				}
-				if completed[pl] {
+				if completed[pl] && !tainted(r.Conn) {
 					vs = append(vs, viol("C03", "until_acked", "resent-after-ack", "message %q (pid %d) was delivered again although the client had completed its acknowledgement on a connection that stayed up", pl, pk.PID))
 				}
 				m := find(pk.PID)
@@ -260,7 +312,7 @@ func oracleC03(p *sim.Plan, out *sim.Outcome) []sim.Violation {
 						break
 					}
 					if matched {
-						if m != nil {
+						if m != nil && !m.carried {
 							m.ackSent = false
 						}
 					} else if len(expect) > 0 {
@@ -269,7 +321,9 @@ func oracleC03(p *sim.Plan, out *sim.Outcome) []sim.Violation {
 						if !pk.Dup {
 							sig = "new-before-old"
 						}
-						vs = append(vs, viol("C03", "redeliver", sig, "resume on connection %d: received PUBLISH %q pid %d dup=%v while un-acknowledged %q (pid %d, %s) had to be retransmitted first", r.Conn, pl, pk.PID, pk.Dup, e.payload, e.pid, e.state))
+						if !relaxed(r.Conn) {
+							vs = append(vs, viol("C03", "redeliver", sig, "resume on connection %d: received PUBLISH %q pid %d dup=%v while un-acknowledged %q (pid %d, %s) had to be retransmitted first", r.Conn, pl, pk.PID, pk.Dup, e.payload, e.pid, e.state))
+						}
 						expect = nil
 						inPrefix = false
 					} else {
@@ -289,19 +343,26 @@ func oracleC03(p *sim.Plan, out *sim.Outcome) []sim.Violation {
 							m = find(pk.PID)
 						}
 						if m != nil && m.payload != pl {
-							vs = append(vs, viol("C03", "ids", "id-reuse", "packet identifier %d assigned to %q while %q (state %s) still awaits its acknowledgement", pk.PID, pl, m.payload, m.state))
+							if !relaxed(r.Conn) {
+								vs = append(vs, viol("C03", "ids", "id-reuse", "packet identifier %d assigned to %q while %q (state %s) still awaits its acknowledgement", pk.PID, pl, m.payload, m.state))
+							}
 							remove(m)
 							m = nil
 						}
 					} else {
-						vs = append(vs, viol("C03", "ids", "id-reuse", "packet identifier %d assigned to %q while %q (state %s) still awaits its acknowledgement", pk.PID, pl, m.payload, m.state))
+						if !relaxed(r.Conn) {
+							vs = append(vs, viol("C03", "ids", "id-reuse", "packet identifier %d assigned to %q while %q (state %s) still awaits its acknowledgement", pk.PID, pl, m.payload, m.state))
+						}
 						remove(m)
 						m = nil
 					}
 				}
 				if m == nil {
-					m = &c03msg{pid: pk.PID, payload: pl, qos: pk.QoS, state: "pub"}
+					m = &c03msg{pid: pk.PID, payload: pl, qos: pk.QoS, state: "pub", recConn: -1}
 					unacked = append(unacked, m)
+				}
+				if !m.carried {
+					m.rxConn = r.Conn
 				}
 				seen[pl] = true
 				// window: QoS>0 PUBLISH whose final ack the client has not sent
@@ -313,12 +374,21 @@ func oracleC03(p *sim.Plan, out *sim.Outcome) []sim.Violation {
 						desc += fmt.Sprintf(" %s(pid %d,%s)", x.payload, x.pid, x.state)
 					}
 				}
-				if n > connLimit {
+				if n > connLimit && !relaxed(r.Conn) {
 					vs = append(vs, viol("C03", "window", "window", "%d QoS>0 PUBLISH packets un-acknowledged by the client on connection %d at step %d, limit min(ReceiveMaximum, max_inflight) = %d:%s", n, r.Conn, r.Step, connLimit, desc))
 				}
 			case mqttc.PUBREL:
 				m := find(pk.PID)
-				if inPrefix {
+				if inPrefix && m != nil && m.state == "rec" && m.recConn == r.Conn {
+					// the answer to a PUBREC the client sent on this connection (a fast client's PUBREC is answered
+					// while the retransmissions are still being written): not part of the retransmission prefix
+					for i, e := range expect {
+						if e == m {
+							expect = append(expect[:i:i], expect[i+1:]...)
+							break
+						}
+					}
+				} else if inPrefix {
 					for len(expect) > 0 {
 						e := expect[0]
 						if e.pid == pk.PID {
@@ -332,7 +402,9 @@ func oracleC03(p *sim.Plan, out *sim.Outcome) []sim.Violation {
 							expect = expect[1:]
 							continue
 						}
-						vs = append(vs, viol("C03", "redeliver", "order", "resume on connection %d: PUBREL %d received while %q (pid %d) had to be retransmitted first", r.Conn, pk.PID, e.payload, e.pid))
+						if !relaxed(r.Conn) {
+							vs = append(vs, viol("C03", "redeliver", "order", "resume on connection %d: PUBREL %d received while %q (pid %d) had to be retransmitted first", r.Conn, pk.PID, e.payload, e.pid))
+						}
 						expect = nil
 						inPrefix = false
 						break
@@ -346,7 +418,14 @@ func oracleC03(p *sim.Plan, out *sim.Outcome) []sim.Violation {
 			pk := r.Pkt
 			switch pk.Type {
 			case mqttc.PUBACK, mqttc.PUBCOMP:
-				if m := find(pk.PID); m != nil {
+				if m := find(pk.PID); m != nil && m.rxConn != r.Conn && pk.Type == mqttc.PUBACK {
+					// sent behind CONNECT, before the CONNACK: the retransmission of this message is optional and
+					// its identifier may be given to another message at any moment of this connection
+					m.ackSent = true
+					m.carried = true
+					m.ackStep = r.Step
+
+				} else if m != nil {
 					remove(m)
 					m.ackSent = true
 					m.ackStep = r.Step
@@ -361,6 +440,7 @@ func oracleC03(p *sim.Plan, out *sim.Outcome) []sim.Violation {
 					} else {
 						m.state = "rec"
 						m.recSentStep = r.Step
+						m.recConn = r.Conn
 					}
 				}
 			}
